@@ -31,6 +31,11 @@ class Observation:
         self.events: List[Any] = []
 
 
+def _reject_constant(name: str) -> Any:
+    # NaN / Infinity are not JSON: a response text containing them is not a JSON document (the harness never sends them as params)
+    raise ValueError(f"non-finite constant {name} in response text")
+
+
 def registry_of(spec: Dict[str, Any]) -> List[Dict[str, Any]]:
     r = spec.get('registry', 'std')
     return stdreg.std_registry(spec['dispatcher']) if r == 'std' else r
@@ -92,7 +97,7 @@ def observe(spec: Dict[str, Any], dispatcher: Any = None, text: Optional[str] = 
             obs.parse_error = f"response text is {type(obs.text).__name__}"
             return obs
         try:
-            obs.doc = json.loads(obs.text)
+            obs.doc = json.loads(obs.text, parse_constant=_reject_constant)
         except ValueError as e:
             obs.parse_error = f"response text is not JSON: {e}: {obs.text[:200]!r}"
     return obs
